@@ -211,6 +211,10 @@ def main(argv: List[str]) -> int:
             lit = q1 + raw + q2
             for site in (TEXT_SITES if len(raw) <= 2 else TEXT_SITES[:4]):
                 add(site.replace('@L@', lit), 'raw literal')
+    for tok in ['1E5', '1e5', '25E-2', '1.5E3', '-3', '+2', '.5', '5.', '0x10', '1_000', '00', '1.2.3', '\u0661\u0662', '\u00b2', '1e', 'E5', 'Infinity', 'NaN',
+                'TRUE', 'Null', 'nul', 'tru']:
+        add("Table t {\n  id int [default: %s]\n}\n" % tok, 'number-like default')
+        add("Table t {\n  id int [default: %s, pk]\n  z int [default:%s]\n}\n" % (tok, tok), 'number-like default')
     add(TEMPLATE.format(**SLOTS), 'awkward identifier')          # the template itself is a valid document
     for slot in SLOTS:
         for a in AWKWARD:
